@@ -150,6 +150,18 @@ fn c13_cbrt(ctx: &mut Ctx) {
 fn c13_hypot(ctx: &mut Ctx) {
     let x = dd_closed(ctx, -400, 400, false);
     let y = if ctx.chance(1, 10) { dd_closed(ctx, -400, 400, false) } else { related(ctx, x, -400, 399) };
+    let (x, y) = if ctx.chance(1, 16) {
+        // integer legs around the roots of the integer-type limits (sum of squares crossing 2^63, 2^64 ...)
+        let (a, _) = integer_root_boundary(ctx);
+        let b = match ctx.below(3) {
+            0 => integer_root_boundary(ctx).0,
+            1 => a,
+            _ => (a.abs() / 3.0).floor().max(1.0),
+        };
+        (Dd::new(a, 0.0), Dd::new(b, 0.0))
+    } else {
+        (x, y)
+    };
     x.key(ctx);
     y.key(ctx);
     note_dd(ctx, "x", x);
@@ -212,6 +224,18 @@ fn c13_powi(ctx: &mut Ctx) {
         let t = f64::from_bits(t.to_bits() ^ (ctx.bits(20)));
         let hi = if ctx.flag() { -t } else { t };
         dd_at(ctx, hi)
+    };
+    let (x, n) = if ctx.chance(1, 16) {
+        let (v, r) = integer_root_boundary(ctx);
+        let n = match ctx.below(4) {
+            0 => r,
+            1 => -r,
+            2 => r + 1,
+            _ => n,
+        };
+        (Dd::new(v, 0.0), n)
+    } else {
+        (x, n)
     };
     c13_powi_eval(ctx, x, n)
 }
